@@ -24,7 +24,7 @@ func init() {
 			"after EVERY step WatchList (as a multiset) and the result class (nil / ErrNonExistentWatch / some error) are compared, panics are caught, and each sequence ends by probing every listed path (one chmod => exactly one Chmod event under the listed spelling), removing everything listed and requiring zero kernel marks. " +
 			"Quick: ALL sequences of length <=3 over a 24-letter alphabet (11 Adds incl. failing ones, 6 Removes, 7 filesystem steps) and over an 8-letter alphabet of names ending in '...' (missing, a file, a directory; an ordinary name while recursion is off); thorough adds all sequences of length <=4 over 14 letters and of length <=3 over 45 letters; " +
 			"plus the same re-pointing templates with the READER HELD BACK (no barrier between the filesystem step and the re-Add), strace-injected ENOSPC on inotify_add_watch (a failed Add must change nothing), " +
-			"plus PRNG sequences of length <=30 and the re-pointing templates (retarget / replace-by-rename / recreate-while-linked then re-Add). distinct_nontrivial = distinct sequences containing >=1 successful Add and >=2 different op kinds",
+			"plus PRNG sequences of length <=30 and the re-pointing templates (retarget / replace-by-rename / recreate-while-linked then re-Add). Plus the replace race (4 Watchers in parallel, hundreds of iterations each: delete or rename away the watched file, create a new one under the name, Add it again while an Add spammer and WatchList pollers contend for the lock and the reader works through the old file's notifications; after a sentinel barrier the file must be listed, backed by exactly one kernel mark and report one Chmod). distinct_nontrivial = distinct sequences containing >=1 successful Add and >=2 different op kinds",
 		Assumptions: []string{"stat(2) identifies the file a path names; a watched inode is 'deleted' when its last link goes while no descriptor is open (the driver holds none here)", "every filesystem step is followed by a sentinel barrier (strict schedule)"},
 		Batches:     func(t string) int { return map[string]int{"quick": 16, "thorough": 64}[t] },
 		MustObserve: []string{"sequences", "steps_compared", "probe_events_checked", "repointed_adds", "replace_race_iterations"},
